@@ -242,8 +242,11 @@ func c15worker(c *hx.Ctx) int {
 // with one or two pattern properties (with and without additionalProperties:false). Each answer must
 // be the one Go's regexp gives for that very pattern, an invalid pattern never matching.
 func c15sequential(rep *hx.Report, sets *hx.SetAdder) {
-	pats := []string{"^a+$", "^b+$", "(?i)^x-", "^id$", "(b", "a)", `a\`, "b", "é", "^$", "[", "^(a|b)$"}
-	keys := []string{"aa", "bb", "ID", "Id", "x-A", "X-a", "a", "b", "a|b", "é", "", "ab"}
+	// invalid expressions whose offending FRAGMENT (what the compiler quotes in its error) is itself a
+	// valid expression, each followed in the list by that fragment: `^[q-b]+$` / `q-b`, `id-[7-3]` / `7-3`,
+	// `[[:letter:]]` / `[:letter:]`, a trailing backslash / the empty expression
+	pats := []string{"^a+$", "^b+$", "(?i)^x-", "^id$", "(b", "a)", `a\`, "", "b", "é", "^$", "[", "^(a|b)$", "^[q-b]+$", "q-b", "id-[7-3]", "7-3", "[[:letter:]]", "[:letter:]"}
+	keys := []string{"aa", "bb", "ID", "Id", "x-A", "X-a", "a", "b", "a|b", "é", "", "ab", "q-b", "7-3", "e"}
 	match := func(p, k string) (matches, valid bool) {
 		re, err := regexp.Compile(p)
 		if err != nil {
